@@ -242,6 +242,20 @@ func (en *Engine) bitopSym(st *State, op token.Token, x, y *Term, bits int) *Ter
 	zero := ConstI(0)
 	st.assume(Le(zero, t))
 	st.assume(Le(t, ones))
+	// conditional disjointness lemma: if one operand is a multiple of 2^k and the other is below 2^k,
+	// or/xor is addition and and is zero
+	for _, pr := range [][2]*Term{{x, y}, {y, x}} {
+		a, b := pr[0], pr[1]
+		if k := tz(a); k > 0 && k < bits {
+			var concl *Term
+			if op == token.AND {
+				concl = Eq(t, zero)
+			} else {
+				concl = Eq(t, Add(a, b))
+			}
+			st.assume(Imp(And(Le(zero, b), Lt(b, Const(pow2(k)))), concl))
+		}
+	}
 	switch op {
 	case token.AND:
 		st.assume(Le(t, x))
